@@ -180,11 +180,14 @@ def run(chk):
     # CLI level: `gwf run [patterns]` (plugin glue, fnmatch selection, TrackingBackend) against a simulated cluster
     import history_check as HC
     rule, assume = chk.rule, chk.assumptions
-    HC.run_prop(chk, "C02", ["C05"], 96 if chk.tier == "quick" else 1500, rule, assume, lambda r: True)
+    HC.run_prop(chk, "C02", ["C05", "C07", "C07:local", "C05:local", "C07:sge", "C07:lsf"], 120 if chk.tier == "quick" else 1800, rule, assume, lambda r: True)
 
 
 def replay(chk, data):
     chk.rule = RULE
+    if "focus" in data["input"]:
+        import history_check as HC
+        return HC.replay_prop(chk, "C02", data, RULE)
     if "pattern" in data["input"]:
         from gwf.filtering import NameFilter
         p, nm = data["input"]["pattern"], data["input"]["name"]
